@@ -97,7 +97,26 @@ void run_case(ByteSource& bs, CaseInfo& ci) {
   auto specified_nonempty = [&](int j) { return w.s[j].v && w.s[j].spec && w.s[j].kind != EMPTY && w.s[j].d > 0; };
   for (int step = 0; step < nops && !bs.exhausted(); step++) {
     unsigned op = bs.choose(19);
-    int i = (int)bs.choose(NS), j = (int)bs.choose(NS), k = (int)bs.choose(NS);
+    // construction, not rejection: slots are drawn among those that satisfy the operation's precondition
+    auto pick = [&](int need) -> int {  // 0 absent, 1 live, 2 live specified, 3 specified non-empty, 4 any
+      int cand[NS], n = 0;
+      for (int q = 0; q < NS; q++) {
+        bool ok = need == 4 || (need == 0 && !w.s[q].v) || (need == 1 && w.s[q].v) || (need == 2 && w.s[q].v && w.s[q].spec) || (need == 3 && specified_nonempty(q));
+        if (ok) cand[n++] = q;
+      }
+      unsigned r = bs.choose(NS);
+      return n ? cand[r % n] : (int)r;
+    };
+    static const int NEED_I[19] = {0, 0, 0, 0, 0, 0, 0, 1, 1, 1, 0, 3, 3, 3, 3, 1, 4, 1, 4};
+    static const int NEED_J[19] = {4, 4, 4, 4, 4, 2, 1, 2, 1, 3, 3, 3, 3, 4, 4, 4, 4, 1, 4};
+    static const int NEED_K[19] = {4, 4, 4, 4, 4, 4, 4, 4, 4, 3, 3, 4, 4, 4, 4, 4, 4, 4, 4};
+    int i = pick(NEED_I[op]), j = pick(NEED_J[op]), k = pick(NEED_K[op]);
+    if ((op == 9 || op == 10 || op == 11 || op == 12) && specified_nonempty(j)) {  // prefer a second operand of the same dimension
+      int cand[NS], n = 0;
+      for (int q = 0; q < NS; q++) if (specified_nonempty(q) && w.s[q].d == w.s[j].d) cand[n++] = q;
+      if (op == 11 || op == 12) { if (!(specified_nonempty(i) && w.s[i].d == w.s[j].d) && n) i = cand[bs.choose(n)]; }
+      else if (!(specified_nonempty(k) && w.s[k].d == w.s[j].d) && n) k = cand[bs.choose(n)];
+    }
     char nm[96]; nm[0] = 0;
     Slot &S = w.s[i], &J = w.s[j], &K = w.s[k];
     switch (op) {
@@ -155,7 +174,7 @@ void run_case(ByteSource& bs, CaseInfo& ci) {
         touch_consumed(w, i); touch_consumed(w, j);
         if (i == j) { *S.v = std::move(*S.v); snprintf(nm, sizeof nm, "s%d=move(self)", i); break; }
         if (!S.spec) {  // target unspecified (self-origin): whatever it holds is released or swapped away; result takes J's value
-          if (!J.spec) { *S.v = std::move(*J.v); snprintf(nm, sizeof nm, "s%d(unspec)=move(s%d unspec)", i, j); break; }
+          if (!J.spec) { *S.v = std::move(*J.v); S.ext_origin = S.ext_origin || J.ext_origin; snprintf(nm, sizeof nm, "s%d(unspec)=move(s%d unspec)", i, j); break; }
           Kind jk = J.kind; int jb = J.buf, jd = J.d; std::vector<double> jv = mvals(w, J); jv.resize(jd * jd);
           *S.v = std::move(*J.v);
           classify_result(w, i, jd, jv, jk == EXT ? std::vector<int>{jb} : std::vector<int>{});
